@@ -955,7 +955,8 @@ theorem recip_ok (n : Nat) (p : Rat → Prop) (sp : SignP p) {X : PB} (wX : WF n
   refine ⟨?_, ⟨l1, l2, s1, s2, hle⟩⟩
   have z1 := hasZero_false_of (fun x hx => sp.ne0 x (hl x hx))
   have z2 := hasZero_false_of (fun x hx => sp.ne0 x (hr x hx))
-  simp only [recip, z1, z2, Bool.or_self, Bool.false_eq_true, if_false]
+  have z0 := straddlesZero_false_of_anti X p hl hr sp.anti
+  simp only [recip, z0, z1, z2, Bool.or_self, Bool.false_eq_true, if_false]
   exact mk_ok n false _ _ l1 l2 s1 s2 hle
 
 theorem mem_of_LE_left {l l' : List Rat} (h : LE l' l) (p : Rat → Prop) (hp : ∀ x y, p x → x ≤ y → p y)
